@@ -974,6 +974,10 @@ class Explorer:
             cont(m, ev | {('call', name)}, tuple(args))
             return
         crec = self.facts.fn(name) if fd.get('local') or self.facts.fn(name) is not None else None
+        if crec is not None and fd.get('trait') and fd.get('res') in (None, fd.get('def')):
+            a0 = (fd.get('a0') or '').lstrip('&').replace('mut ', '')
+            if '::' not in a0 or a0.startswith(('dyn ', '(dyn ', 'impl ')) or fd.get('rk') == 'virtual':
+                crec = None     # call through a type parameter / trait object: the trait's default body is not the callee
         inl = crec is not None and depth < self.inline_depth and not any(name.startswith(p) or name == p for p in self.no_inline)
         if inl and self.inline_only is not None:
             inl = any(name.startswith(p) or name.startswith('<' + p) for p in self.inline_only)
